@@ -77,6 +77,7 @@ fn layout_for(nfiles: usize, nblocks: usize) -> LayoutSpec {
         ldb_small: true,
         ldb_reopens: 0,
         ldb_compact: true,
+        ldb_history: false,
     }
 }
 
